@@ -10,8 +10,10 @@ use tu_verif::guard::catch;
 use tu_verif::run::Run;
 
 const SIZES: [usize; 5] = [0, 1, 2, 3, 5];
-const PREFETCH: [usize; 4] = [0, 1, 2, 3];
-const LIMITS: [usize; 6] = [0, 1, 2, 3, 4, 6];
+/// small values and the extremes (the 'no limit' idiom usize::MAX, the largest power of two, and a
+/// value whose product with a small element size no longer fits an allocation request)
+const PREFETCH: [usize; 5] = [0, 1, 2, 3, usize::MAX];
+const LIMITS: [usize; 9] = [0, 1, 2, 3, 4, 6, 1 << 61, 1 << 63, usize::MAX];
 
 /// an item with a unique id (its position in the input) and a size
 #[derive(Clone, Copy, PartialEq, Eq, Hash, Debug)]
